@@ -132,11 +132,12 @@ def run_config(cfg, seed, tier):
                         distinct=len(r["seen"]), sample=r["sample"], cover=r["cover"], digests=b"".join(sorted(r["seen"])))
         _, _, part, params, depth, lo, hi = cfg
         m = _model(part, params)
-        roots = m.roots()[lo:hi]
+        allroots = m.roots()
+        roots = allroots[lo:hi]
         if part == "bus":
             from checks.c13_bus import StubInterconnect
             with StubInterconnect():
-                X = explore(m, depth, seed, roots)
+                X = explore(m, depth, seed, roots, owner=(allroots, lo))
             extra = dict(decoder_evaluations=m.E.evals)
         elif part == "busreal":
             X = explore(m, depth, seed, roots)
